@@ -307,10 +307,11 @@ func topLibFrame(stack string) string {
 				loc = loc[:j]
 			}
 			fn := lines[i]
-			if j := strings.Index(fn, "("); j >= 0 {
+			if j := strings.LastIndex(fn, "("); j > 0 {
 				fn = fn[:j]
 			}
 			fn = strings.TrimPrefix(fn, "github.com/jwhited/corebgp.")
+			fn = strings.NewReplacer("(*", "", ")", "").Replace(fn)
 			return fn + "@" + loc
 		}
 	}
